@@ -29,10 +29,24 @@ func BSmtp(code int, ec [3]int, msg string) BErr {
 }
 func BPlain(msg string) BErr { return BErr{Kind: "plain", Msg: msg} }
 
+var (
+	berrMu    sync.Mutex
+	berrCache = map[BErr]*smtp.SMTPError{}
+)
+
 func (e BErr) Err() error {
 	switch e.Kind {
 	case "smtp":
-		return &smtp.SMTPError{Code: e.Code, EnhancedCode: smtp.EnhancedCode(e.EC), Message: e.Msg}
+		// ONE error value per distinct refusal for the whole run, the way applications declare their refusals
+		// (and the library its ErrDataTooLarge): whoever writes into it is heard by everyone after
+		berrMu.Lock()
+		defer berrMu.Unlock()
+		if v, ok := berrCache[e]; ok {
+			return v
+		}
+		v := &smtp.SMTPError{Code: e.Code, EnhancedCode: smtp.EnhancedCode(e.EC), Message: e.Msg}
+		berrCache[e] = v
+		return v
 	case "plain":
 		// a plain error whose text says so is ALSO a net.Error that reports a time-out (a backend's own
 		// deadline: context.DeadlineExceeded, an upstream i/o timeout): still "any other error" for the server
@@ -441,15 +455,18 @@ func (s *recSession) deliver(r io.Reader, status smtp.StatusCollector) (ret erro
 	}
 	term := ErrKind(rerr)
 	planRet := p.Ret.Err()
+	// (recorded from the script, not read back from the shared error value: see BErr.Err)
+	planRetSx := p.Ret.Sx()
 	if rerr != nil && !errors.Is(rerr, io.EOF) && p.Prop {
 		planRet = rerr
+		planRetSx = ErrSx(rerr)
 	}
 	rec := func(panicked bool) {
 		tag := "data"
 		if isPipe {
 			tag = "del"
 		}
-		e := L(A(tag), X(got), A(term), ErrSx(planRet), B(panicked))
+		e := L(A(tag), X(got), A(term), planRetSx, B(panicked))
 		s.b.mu.Lock()
 		if isPipe {
 			s.b.Deliveries = append(s.b.Deliveries, e)
